@@ -3053,6 +3053,18 @@ fn find_fn<'f>(file: &'f syn::File, name: &str) -> Option<(&'f syn::Signature, &
                     }
                 }
             }
+            // a provided method of a trait (`trait T { fn f(&self) -> .. { body } }`), addressed as T::f
+            Item::Trait(tr) if ty.is_some() && tr.ident == ty.unwrap() => {
+                for ti in &tr.items {
+                    if let syn::TraitItem::Fn(m) = ti {
+                        if m.sig.ident == f {
+                            if let Some(b) = &m.default {
+                                return Some((&m.sig, b));
+                            }
+                        }
+                    }
+                }
+            }
             _ => {}
         }
     }
